@@ -13,6 +13,15 @@ import writers_C19 as W
 SPEC_CALLS = {"mkdtemp", "open_tmp", "write", "close", "unlink_dest", "rename", "rmtree"}
 MULTI_EVENT_CALLS = {"mkdtemp", "rmtree", "write"}  # one abstract call = several raw boundaries
 
+# how Fault(c) of the spec is instantiated on the real code: errors a file system can return for the call
+PATH_CALL_ERRNOS = ("EIO", "EACCES", "ENOENT")
+FILE_OBJECT_ERRNOS = ("EIO", "ENOSPC")  # write / close
+
+
+def fault_variants(role):
+    errs = FILE_OBJECT_ERRNOS if role in ("write", "close") else PATH_CALL_ERRNOS
+    return [f"{e}:{rep}" for e in errs for rep in ("once", "persist")]
+
 
 def snapshot_dir(root: Path):
     out = {}
@@ -23,8 +32,9 @@ def snapshot_dir(root: Path):
 
 
 def execute(job):
-    """job = (case, pre, k, mode, scratch) -> raw result (JSON-able)"""
-    case, pre, k, mode, scratch = job
+    """job = (case, pre, k, mode, scratch[, fault variant]) -> raw result (JSON-able)"""
+    case, pre, k, mode, scratch = job[:5]
+    variant = job[5] if len(job) > 5 else None
     root = Path(tempfile.mkdtemp(prefix="case-", dir=scratch))
     work = root / "d"
     work.mkdir()
@@ -33,7 +43,7 @@ def execute(job):
         dest.write_bytes(W.old_bytes(case.fname))
     log = root / "log.ndjson"
     try:
-        status, events, end = faults.run_in_child(work, dest, k, mode, log, lambda: W.call(case, str(dest)))
+        status, events, end = faults.run_in_child(work, dest, k, mode, log, lambda: W.call(case, str(dest)), variant=variant)
         final = snapshot_dir(work)
     finally:
         shutil.rmtree(root, ignore_errors=True)
@@ -42,6 +52,7 @@ def execute(job):
         "pre": pre,
         "k": k,
         "mode": mode,
+        "variant": variant,
         "status": status,
         "events": events,
         "end": end,
